@@ -53,3 +53,157 @@ package fdo
 //@   callassert SetRVBlob#1: @expiry AddedDur(u(arg4)) == int64(ttl) * 1000000000
 //@   callassert SetRVBlob#1: @policy s.AcceptVoucher != nil ==> ttl != 0 && u(ttl) == policyttl(ctx)
 //@   ensures @reply ? err == nil ==> result0 != nil && result0.WaitSeconds == ttl
+
+// DevKeyOf(v) is DEFINED as the key DevicePublicKey returns; the body pins it
+// to the first certificate of the device chain.
+//@ func fdo.Voucher.DevicePublicKey
+//@   props C04 C07 C02 C10(sweep)
+//@   sweep bounds,panic,nilmem
+//@   pure
+//@   ensures @first err == nil && v.CertChain != nil ==> u(result0) == u((*v.CertChain)[0].PublicKey)
+//@   ensures @nochain v.CertChain == nil ==> result0 == nil
+//@   ensures! err == nil ==> u(result0) == DevKeyOf(u(*v))
+
+//@ func fdo.Voucher.VerifyManufacturerKey
+//@   props C04 C01 C10(sweep)
+//@   sweep bounds,panic,nilmem
+//@   modifies nothing
+//@   ensures @hash err == nil ==> bytes(keyHash.Value) == digest(happ(hinit(u(hashfn(keyHash.Algorithm))), Enc(u(v.Header.Val.ManufacturerKey))))
+//@   ensures @alg err == nil ==> keyHash.Algorithm == -16 || keyHash.Algorithm == -43
+
+//@ func fdo.Voucher.VerifyCertChainHash
+//@   props C04 C10(sweep)
+//@   sweep bounds,panic,nilmem
+//@   modifies nothing
+//@   ensures @checked ? err == nil && v.CertChain != nil ==> bytes(cchash.Value) == digest(absorbed(digest))
+//@   ensures @both err == nil ==> (v.CertChain == nil) == (v.Header.Val.CertChainHash == nil)
+
+// header MAC: the MAC over the re-encoded header, under the device's secret
+//@ func fdo.hmacVerify
+//@   props C04 C01 C10(sweep)
+//@   sweep bounds,nilmem
+//@   requires @h256 h256 != nil
+//@   modifies nothing
+//@   ensures @mac ? err == nil ==> bytes(h1.Value) == digest(happ(hinit(hashkind(h)), Enc(encarg(v))))
+//@   ensures @which ? err == nil ==> (h1.Algorithm == 5 && u(h) == u(h256)) || (h1.Algorithm == 6 && u(h) == u(h384))
+//@   ensures! err == nil ==> HeaderMacOk(u(h1), encarg(v), u(h256), u(h384))
+
+//@ func fdo.Voucher.VerifyHeader
+//@   props C04 C01 C10(sweep)
+//@   sweep bounds,nilmem
+//@   requires @h256 hmacSha256 != nil
+//@   modifies nothing
+//@   ensures @mac err == nil ==> HeaderMacOk(u(v.Hmac), u(v.Header.Val), u(hmacSha256), u(hmacSha384))
+
+// ---- TO1 server (C07) ---------------------------------------------------------------------
+
+//@ func fdo.TO1Server.rvRedirect
+//@   props C07 C08 C10(sweep)
+//@   sweep bounds,panic,make,nilmem
+//@   ensures @nonce ? err == nil ==> bytes(nonce) == TO1NonceOf(u(ctx))
+//@   ensures @ueid ? err == nil ==> len(ueid) == 17 && ueid[0] == 1
+//@   ensures @guid ? err == nil ==> forall k in 0..16: guid[k] == ueid[1+k]
+//@   ensures @lookup ? err == nil ==> u(blob) == BlobFor(u(guid)) && u(ov) == VoucherFor(u(guid))
+//@   ensures @sig ? err == nil ==> SigOk(u(token.Sign1), DevKeyOf(u(*ov)))
+//@   ensures @blob ? err == nil ==> result0 != nil && u(result0.Sign1) == u(*blob)
+
+// ---- TO2 device side (C01) -----------------------------------------------------------------
+
+//@ func fdo.sendHelloDevice
+//@   maxpaths 2000
+//@   props C01 C10(sweep)
+//@   sweep bounds,panic,make,nilmem
+//@   callassert Send#1: @hello arg2 == 60 && u(unwrap(arg3)) == u(hello) && arg4 == nil
+//@   ensures @hellohash ? err == nil ==> bytes(proveOVHdr.Payload.Val.HelloDeviceHash.Value) == digest(happ(hinit(u(hashfn(proveOVHdr.Payload.Val.HelloDeviceHash.Algorithm))), Enc(u(hello))))
+//@   ensures @sig ? err == nil ==> SigOk(u(proveOVHdr.Sign1), u(key))
+//@   ensures @nonce ? err == nil ==> forall k in 0..16: proveOVHdr.Payload.Val.NonceTO2ProveOV[k] == proveOVNonce[k]
+//@   ensures @hellononce ? err == nil ==> forall k in 0..16: hello.NonceTO2ProveOV[k] == proveOVNonce[k]
+//@   ensures @info ? err == nil ==> result1 != nil && u(result1.PublicKeyToValidate) == u(key) && u(result1.OVH) == u(proveOVHdr.Payload.Val.OVH.Val) && u(result1.OVHHmac) == u(proveOVHdr.Payload.Val.OVHHmac)
+//@   ensures! err == nil ==> HdrProven(u(result1.PublicKeyToValidate), u(result1.OVH), u(result1.OVHHmac))
+
+//@ func fdo.sendNextOVEntry
+//@   props C01 C10(sweep)
+//@   sweep bounds,panic,make,nilmem
+//@   modifies nothing
+//@   callassert Send#1: @request arg2 == 62 && arg4 == nil
+//@   ensures @echo ? err == nil ==> ovNextEntry.OVEntryNum == i
+//@   ensures @nonnil err == nil ==> result0 != nil
+
+//@ func fdo.verifyVoucher
+//@   props C01 C07 C10(sweep)
+//@   sweep bounds,panic,make,nilmem
+//@   requires @h256 c.HmacSha256 != nil
+//@   ensures @header ? err == nil ==> HeaderMacOk(u(info.OVHHmac), u(info.OVH), u(c.HmacSha256), u(c.HmacSha384))
+//@   ensures @mfgkey ? err == nil ==> bytes(c.Cred.PublicKeyHash.Value) == digest(happ(hinit(u(hashfn(c.Cred.PublicKeyHash.Algorithm))), Enc(u(info.OVH.ManufacturerKey))))
+//@   ensures @chain ? err == nil ==> ChainOk(u(ov)) && u(ov.Header.Val) == u(info.OVH) && u(ov.Hmac) == u(info.OVHHmac)
+//@   ensures @lastkey ? err == nil ==> u(expectedOwnerPub) == PubOf(u(ownerPub)) && imp(len(ov.Entries) > 0, u(ownerPub) == u(ov.Entries[len(ov.Entries)-1].Payload.Val.PublicKey)) && imp(len(ov.Entries) == 0, u(ownerPub) == u(ov.Header.Val.ManufacturerKey))
+//@   ensures @ownerkey ? err == nil ==> KeyEq(u(info.PublicKeyToValidate), u(expectedOwnerPub))
+//@   ensures @to1d ? err == nil && to1d != nil ==> SigOk(u(*to1d), u(expectedOwnerPub))
+//@   ensures! err == nil ==> VoucherProven(u(info.PublicKeyToValidate))
+
+// ---- helpers with several outcomes: summarised by contract (no inlining) --------
+//@ func fdo.captureErr
+//@   nopaths
+//@   modifies nothing
+//@ func fdo.captureMsgType
+//@   nopaths
+//@   modifies nothing
+//@ func fdo.errorMsg
+//@   nopaths
+//@   modifies nothing
+//@ func fdo.contextWithErrMsg
+//@   nopaths
+//@   pure
+//@   ensures result != nil
+
+//@ func fdo.newHash
+//@   props C10(sweep)
+//@   sweep panic
+//@   pure
+//@   ensures @known err == nil ==> alg == -16 || alg == -43 || alg == 5 || alg == 6
+//@   ensures @nonnil err == nil ==> result0 != nil
+//@   ghostset absorbed(result0) := hinit(u(hashfn(alg)))
+//@   ghostset hashkind(result0) := u(hashfn(alg))
+
+// ---- signature option / sig-info / key-type tables (C09) ------------------------
+//@ func fdo.sigInfoFor
+//@   props C09 C10(sweep)
+//@   sweep panic,nilmem,bounds
+//@   pure
+//@   ensures @nonnil err == nil ==> result0 != nil && sigregistered(result0.Type)
+
+//@ func fdo.signOptsFor
+//@   props C09 C10(sweep)
+//@   sweep panic,nilmem,bounds,typeassert
+//@   pure
+
+// every signature algorithm the library produces maps to a key type, and
+// nothing else does (unsupported values are errors, not a different choice)
+//@ func fdo.keyTypeFor
+//@   props C09 C10(sweep)
+//@   sweep panic,nilmem,bounds
+//@   pure
+//@   ensures @table err == nil ==> (alg == -7 && result0 == 10) || (alg == -35 && result0 == 11) || (alg == -257 && result0 == 1) || (alg == -258 && result0 == 5) || ((alg == -37 || alg == -38) && result0 == 6)
+//@   ensures @total (alg == -7 || alg == -35 || alg == -257 || alg == -258 || alg == -37 || alg == -38) ==> err == nil
+
+// ---- TO2 owner side (C02): nothing is served before the device proved its key ----
+// devproven: the ProveDevice token verified under the device key of the voucher
+// of this session's GUID, carries this session's nonce and names that GUID.
+//@ spec macro devproven(proofobj, ov, guid, ctx, nonceClaim, ueidClaim) = SigOk(u(proofobj), DevKeyOf(u(*ov))) && u(ov) == VoucherFor(u(guid)) && u(guid) == SessGUID(u(ctx)) && bytes(nonceClaim) == ProveDvNonceOf(u(ctx)) && len(ueidClaim) == 17 && ueidClaim[0] == 1
+//@ func fdo.TO2Server.setupDevice
+//@   props C02 C08 C10(sweep)
+//@   sweep bounds,panic,make,nilmem
+//@   callassert SetParameter#1: @proven devproven(proof.Sign1, ov, guid, ctx, nonceClaim, ueidClaim)
+//@   callassert SetParameter#1: @ueidguid forall k in 0..16: ueidClaim[1+k] == guid[k]
+//@   callassert SetParameter#1: @param u(arg1) == u(xB)
+//@   callassert SetXSession#1: @proven devproven(proof.Sign1, ov, guid, ctx, nonceClaim, ueidClaim)
+//@   callassert replacementCredential#1: @proven devproven(proof.Sign1, ov, guid, ctx, nonceClaim, ueidClaim)
+//@   callsites SetParameter 1
+//@   callsites SetXSession 1
+//@   callsites replacementCredential 1
+//@   ensures @proven ? err == nil ==> devproven(proof.Sign1, ov, guid, ctx, nonceClaim, ueidClaim)
+//@   ensures @early err == nil ==> result0 != nil
+
+//@ func fdo.TO2Server.replacementCredential
+//@   nopaths
+//@   modifies nothing
